@@ -1,0 +1,17 @@
+//go:build verif
+
+// Contracts for the verif build tag (read by /verif/govc; comment-only).
+package selectors
+
+// Single-server selectors (Selector[*single.Context, string]): a non-empty answer is
+// one of the candidates offered; a selector may narrow the candidate set for the
+// selectors after it, never widen it.
+//
+//@ func Selector.Select(recv, o) (res, err)
+//@ trusted
+//@ ensures err == nil && res != "" ==> ghset(members, old(o.Candidates), res)
+//@ ensures err != nil ==> res == ""
+//@ ensures o.Candidates != nil && forall k string :: ghset(members, o.Candidates, k) ==> ghset(members, old(o.Candidates), k)
+//@ modifies fields(github.com/oxia-db/oxia/coordinator/selectors/single.Context)
+//@ preserves o.selected, o.Status
+//@ note generic interface: refinement cannot be generated mechanically for its instantiations. finalSelector, lowerestLoadSelector and server (single) are verified against the same postcondition; serverAntiAffinitiesSelector is NOT verified (nested map/set iteration): for it this contract is an assumption
